@@ -80,12 +80,12 @@ theorem pathFrom_cons (t : Tree) (x : List Rat) (fuel i : Nat) :
     · exact ⟨[], rfl⟩
 
 /-- what `wfNode` gives at an internal node -/
-theorem wfNode_internal {t : Tree} {X : Rows} {m : Nat} {eps : Rat} {i : Nat} {l r f : Int} {thr : Rat}
-    (hw : wfNode t X m eps i = true)
+theorem wfNode_internal {t : Tree} {X : Rows} {m : Nat} {nxt : Rat → Rat} {i : Nat} {l r f : Int} {thr : Rat}
+    (hw : wfNode t X m nxt i = true)
     (h1 : t.left[i]? = some l) (h2 : t.right[i]? = some r) (h3 : t.feature[i]? = some f)
     (h4 : t.threshold[i]? = some thr) (hl : ¬ l = -1) :
     (i : Int) < l ∧ (i : Int) < r ∧ 0 ≤ f ∧ f < (m : Int)
-    ∧ (∀ row ∈ X, row.getD f.toNat 0 ≤ thr ∨ thr + eps ≤ row.getD f.toNat 0)
+    ∧ (∀ row ∈ X, row.getD f.toNat 0 ≤ thr ∨ nxt thr ≤ row.getD f.toNat 0)
     ∧ parentOf t l.toNat = some i ∧ isLeftChild t l.toNat = true
     ∧ parentOf t r.toNat = some i ∧ isLeftChild t r.toNat = false := by
   simp only [wfNode, h1, h2, h3, h4] at hw
@@ -94,10 +94,22 @@ theorem wfNode_internal {t : Tree} {X : Rows} {m : Nat} {eps : Rat} {i : Nat} {l
   rcases hw with hw | hw
   · exact absurd hw.1 hl
   · obtain ⟨⟨⟨⟨⟨⟨⟨⟨⟨⟨⟨a1, _⟩, a3⟩, _⟩, _⟩, a6⟩, a7⟩, a8⟩, a9⟩, a10⟩, a11⟩, a12⟩ := hw
-    exact ⟨a1, a3, a6, a7, a8, a9, a10, a11, a12⟩
+    exact ⟨a1, a3, a6, a7, a8.2, a9, a10, a11, a12⟩
 
-theorem telescope_tail (t : Tree) (X : Rows) (m : Nat) (eps : Rat)
-    (hlen : t.left.length = t.n) (hwf : ∀ i < t.n, wfNode t X m eps i = true) (x : List Rat) :
+/-- the threshold of an internal node lies strictly below its successor -/
+theorem wfNode_lt {t : Tree} {X : Rows} {m : Nat} {nxt : Rat → Rat} {i : Nat} {l r f : Int} {thr : Rat}
+    (hw : wfNode t X m nxt i = true)
+    (h1 : t.left[i]? = some l) (h2 : t.right[i]? = some r) (h3 : t.feature[i]? = some f)
+    (h4 : t.threshold[i]? = some thr) (hl : ¬ l = -1) : thr < nxt thr := by
+  simp only [wfNode, h1, h2, h3, h4] at hw
+  simp only [Bool.or_eq_true, Bool.and_eq_true, beq_iff_eq, decide_eq_true_eq, bne_iff_ne, ne_eq,
+    List.all_eq_true, Bool.not_eq_true'] at hw
+  rcases hw with hw | hw
+  · exact absurd hw.1 hl
+  · exact hw.1.1.1.1.2.1
+
+theorem telescope_tail (t : Tree) (X : Rows) (m : Nat) (nxt : Rat → Rat)
+    (hlen : t.left.length = t.n) (hwf : ∀ i < t.n, wfNode t X m nxt i = true) (x : List Rat) :
     ∀ fuel i, sumR (((pathFrom t x fuel i).drop 1).map (delta t))
       = t.value.getD (descend t x fuel i) 0 - t.value.getD i 0 := by
   intro fuel
@@ -137,11 +149,11 @@ theorem telescope_tail (t : Tree) (X : Rows) (m : Nat) (eps : Rat)
     · simp [sumR, Rat.sub_self]
 
 /-- the telescoping core: the node deltas along the root-to-leaf path of a row add up to the leaf value -/
-theorem telescope (t : Tree) (X : Rows) (m : Nat) (eps : Rat)
-    (hlen : t.left.length = t.n) (hwf : ∀ i < t.n, wfNode t X m eps i = true) (x : List Rat) :
+theorem telescope (t : Tree) (X : Rows) (m : Nat) (nxt : Rat → Rat)
+    (hlen : t.left.length = t.n) (hwf : ∀ i < t.n, wfNode t X m nxt i = true) (x : List Rat) :
     sumR ((pathFrom t x t.n 0).map (delta t)) = treePredict t x := by
   obtain ⟨tl, htl⟩ := pathFrom_cons t x t.n 0
-  have h := telescope_tail t X m eps hlen hwf x t.n 0
+  have h := telescope_tail t X m nxt hlen hwf x t.n 0
   rw [htl] at h ⊢
   simp only [List.drop_succ_cons, List.drop_zero, List.map_cons, sumR] at h ⊢
   rw [h]
@@ -206,21 +218,21 @@ theorem extensionI_single (X : Rows) (m : Nat) (f : Int) (d : Descr) (base : Lis
 theorem sat_left (thr x : Rat) : (Descr.ivl .ninf (.fin thr)).sat x = decide (x ≤ thr) := by
   simp [Descr.sat, Descr.ends, Ext.le]
 
-theorem sat_right (thr eps x : Rat) (heps : 0 < eps) (hsep : x ≤ thr ∨ thr + eps ≤ x) :
-    (Descr.ivl (.fin (thr + eps)) .pinf).sat x = !decide (x ≤ thr) := by
+theorem sat_right (thr nthr x : Rat) (heps : thr < nthr) (hsep : x ≤ thr ∨ nthr ≤ x) :
+    (Descr.ivl (.fin nthr) .pinf).sat x = !decide (x ≤ thr) := by
   simp only [Descr.sat, Descr.ends, Ext.le, Bool.and_true]
   by_cases h : x ≤ thr
-  · have : ¬ (thr + eps ≤ x) := by grind
+  · have : ¬ (nthr ≤ x) := by grind
     simp [h, this]
-  · have : thr + eps ≤ x := by rcases hsep with h' | h'; exact absurd h' h; exact h'
+  · have : nthr ≤ x := by rcases hsep with h' | h'; exact absurd h' h; exact h'
     simp [h, this]
 
 /-- what the decidable `wellFormed` predicate provides -/
-theorem wf_parts {t : Tree} {X : Rows} {m : Nat} {eps : Rat} (h : wellFormed t X m eps = true) :
-    t.left.length = t.n ∧ 0 < eps ∧ (∀ i < t.n, wfNode t X m eps i = true) := by
+theorem wf_parts {t : Tree} {X : Rows} {m : Nat} {nxt : Rat → Rat} (h : wellFormed t X m nxt = true) :
+    t.left.length = t.n ∧ (∀ i < t.n, wfNode t X m nxt i = true) := by
   simp only [wellFormed, Bool.and_eq_true, decide_eq_true_eq, List.all_eq_true, List.mem_range] at h
-  obtain ⟨⟨⟨⟨⟨⟨⟨⟨_, h2⟩, _⟩, _⟩, _⟩, h6⟩, _⟩, h8⟩, _⟩ := h
-  exact ⟨h2, h6, h8⟩
+  obtain ⟨⟨⟨⟨⟨⟨⟨_, h2⟩, _⟩, _⟩, _⟩, _⟩, h8⟩, _⟩ := h
+  exact ⟨h2, h8⟩
 
 
 /-! ### inversion of `parse`: parents and deltas -/
@@ -272,8 +284,8 @@ theorem deltas_ok (t : Tree) : ∀ (ks : List Nat) (ds : List Rat),
     · cases h
 
 
-theorem parse_dtargets_eq (t : Tree) (m : Nat) (eps : Rat) (r : Rules) (hn : 0 < t.n)
-    (h : parse t m eps = .ok r) :
+theorem parse_dtargets_eq (t : Tree) (m : Nat) (nxt : Rat → Rat) (r : Rules) (hn : 0 < t.n)
+    (h : parse t m nxt = .ok r) :
     r.dtargets = (List.range t.n).map (delta t) ∧
     r.dparents = none :: ((List.range t.n).drop 1).map (parentOf t) := by
   unfold parse at h
@@ -309,18 +321,19 @@ theorem parse_dtargets_eq (t : Tree) (m : Nat) (eps : Rat) (r : Rules) (hn : 0 <
 
 /-- one tracing step at an internal node: the extension of a child's generator inside any base set is the
     rows of the base whose descent step goes to that child -/
-theorem trace_step (t : Tree) (X : Rows) (m : Nat) (eps : Rat) (hwf : wellFormed t X m eps = true)
+theorem trace_step (t : Tree) (X : Rows) (m : Nat) (nxt : Rat → Rat) (hwf : wellFormed t X m nxt = true)
     (i : Nat) (l r f : Int) (thr : Rat)
     (h1 : t.left[i]? = some l) (h2 : t.right[i]? = some r) (h3 : t.feature[i]? = some f)
     (h4 : t.threshold[i]? = some thr) (hl : ¬ l = -1)
     (base : List Nat) (hbase : ∀ g ∈ base, g < nObjects X) :
-    extensionI X m [(f, directDescr t eps l.toNat thr)] (some base)
+    extensionI X m [(f, directDescr t nxt l.toNat thr)] (some base)
         = .ok (base.filter fun g => descend t (X.getD g []) 1 i == l.toNat) ∧
-    extensionI X m [(f, directDescr t eps r.toNat thr)] (some base)
+    extensionI X m [(f, directDescr t nxt r.toNat thr)] (some base)
         = .ok (base.filter fun g => descend t (X.getD g []) 1 i == r.toNat) := by
-  obtain ⟨hlen, heps, hnode⟩ := wf_parts hwf
+  obtain ⟨hlen, hnode⟩ := wf_parts hwf
   have hi : i < t.n := by rw [← hlen]; exact (List.getElem?_eq_some_iff.mp h1).1
   obtain ⟨a1, a3, a6, a7, a8, _, a10, _, a12⟩ := wfNode_internal (hnode i hi) h1 h2 h3 h4 hl
+  have heps := wfNode_lt (hnode i hi) h1 h2 h3 h4 hl
   have hne : l.toNat ≠ r.toNat := by
     have := hnode i hi
     simp only [wfNode, h1, h2, h3, h4] at this
@@ -350,9 +363,59 @@ theorem trace_step (t : Tree) (X : Rows) (m : Nat) (eps : Rat) (hwf : wellFormed
       have hlt : g < X.length := hbase g hg
       simp [List.getD_eq_getElem?_getD, List.getElem?_eq_getElem hlt]
     simp only [directDescr, a12, Bool.false_eq_true, if_false, hstep, cell]
-    rw [sat_right thr eps _ heps (a8 _ hrow)]
+    rw [sat_right thr (nxt thr) _ heps (a8 _ hrow)]
     by_cases hx : (X.getD g []).getD f.toNat 0 ≤ thr
     · rw [if_pos hx, decide_eq_true hx]; simp [hne]
     · rw [if_neg hx, decide_eq_false hx]; simp
+
+/-! ### the explicit-`eps` mode: the former hypothesis implies `wellFormed … (nxtEps eps)` -/
+
+/-- the node condition of the explicit-`eps` mode as it was stated before the successor map was introduced:
+    the threshold separates every row's value by at least `eps` -/
+def wfNodeEps (t : Tree) (X : Rows) (m : Nat) (eps : Rat) (i : Nat) : Bool :=
+  match t.left[i]?, t.right[i]?, t.feature[i]?, t.threshold[i]? with
+  | some l, some r, some f, some thr =>
+    (l == -1 && r == -1) ||
+    (decide ((i : Int) < l) && decide (l < (t.n : Int)) && decide ((i : Int) < r) && decide (r < (t.n : Int))
+      && l != r && decide (0 ≤ f) && decide (f < (m : Int))
+      && X.all (fun row => decide (row.getD f.toNat 0 ≤ thr) || decide (thr + eps ≤ row.getD f.toNat 0))
+      && parentOf t l.toNat == some i && isLeftChild t l.toNat
+      && parentOf t r.toNat == some i && !isLeftChild t r.toNat)
+  | _, _, _, _ => false
+
+/-- the former hypothesis: `0 < eps`, the tree shape, and thresholds that separate the data by at least `eps` -/
+def wellFormedEps (t : Tree) (X : Rows) (m : Nat) (eps : Rat) : Bool :=
+  decide (0 < t.n) && decide (t.left.length = t.n) && decide (t.right.length = t.n)
+  && decide (t.feature.length = t.n) && decide (t.threshold.length = t.n)
+  && decide (0 < eps)
+  && X.all (fun r => decide (r.length = m))
+  && (List.range t.n).all (fun i => wfNodeEps t X m eps i)
+  && ((List.range t.n).drop 1).all (fun k =>
+      ((t.left ++ t.right).filter (fun c => c == (k : Int))).length == 1)
+
+theorem wfNode_of_eps {t : Tree} {X : Rows} {m : Nat} {eps : Rat} (heps : 0 < eps) {i : Nat}
+    (h : wfNodeEps t X m eps i = true) : wfNode t X m (nxtEps eps) i = true := by
+  unfold wfNodeEps at h
+  unfold wfNode
+  split at h
+  · rename_i l r f thr h1 h2 h3 h4
+    simp only [h1, h2, h3, h4]
+    have hlt : decide (thr < nxtEps eps thr) = true := by
+      simp only [nxtEps]; grind
+    simp only [Bool.or_eq_true, Bool.and_eq_true] at h ⊢
+    rcases h with h | h
+    · exact Or.inl h
+    · refine Or.inr ?_
+      obtain ⟨⟨⟨⟨⟨b1, b2⟩, b3⟩, b4⟩, b5⟩, b6⟩ := h
+      exact ⟨⟨⟨⟨⟨b1, hlt, b2⟩, b3⟩, b4⟩, b5⟩, b6⟩
+  · cases h
+
+theorem wellFormed_of_eps {t : Tree} {X : Rows} {m : Nat} {eps : Rat}
+    (h : wellFormedEps t X m eps = true) : wellFormed t X m (nxtEps eps) = true := by
+  unfold wellFormedEps at h
+  unfold wellFormed
+  simp only [Bool.and_eq_true, decide_eq_true_eq, List.all_eq_true] at h ⊢
+  obtain ⟨⟨⟨⟨⟨⟨⟨⟨h1, h2⟩, h3⟩, h4⟩, h5⟩, h6⟩, h7⟩, h8⟩, h9⟩ := h
+  exact ⟨⟨⟨⟨⟨⟨⟨h1, h2⟩, h3⟩, h4⟩, h5⟩, h7⟩, fun i hi => wfNode_of_eps h6 (h8 i hi)⟩, h9⟩
 
 end Fca.DL
